@@ -42,12 +42,12 @@ def run(ctx):
     ctx.exhaustive = True
 
     # conformance of the real code
-    ntr = ctx.pick(25, 250)
+    ntr = ctx.pick(20, 200)
     if ctx.quick:
         k = ctx.seed % 4
-        cfgs = ["1:1:%d" % (k % 2), "2:1:%d" % ((k + 1) % 2), ["2:0:1", "1:0:0", "3:1:1", "3:0:0"][k]]
+        cfgs = ["1:1:%d" % (k % 2), "2:%d:%d" % (k // 2, (k + 1) % 2), ["3:1:1", "4:1:0"][k % 2], ["4:0:0", "3:0:1"][k // 2]]
     else:
-        cfgs = ["1:1:1", "2:1:1", "2:1:0", "1:0:1", "2:0:0", "3:1:1", "1:1:0", "3:0:1"]
+        cfgs = ["1:1:1", "2:1:1", "2:1:0", "1:0:1", "2:0:0", "3:1:1", "1:1:0", "3:0:1", "4:1:0", "4:0:1"]
     try:
         recs = ctx.go_test(".", ["c18_"], "^TestVerifC18Pool$", timeout=1800,
                            env={"VERIF_C18_TRACES": ntr, "VERIF_C18_CFGS": ",".join(cfgs)})
